@@ -223,6 +223,36 @@ pub fn footers(thorough: bool) -> Vec<(String, bool)> {
     for n in [58, 59, 60, 99, 299] {
         days.push(n.to_string());
     }
+    // every spelling of an offset / a rule time: sign x hour x optional minutes x optional seconds
+    let mut spelled: Vec<(String, bool, bool)> = vec![]; // (text, negative or explicit sign, beyond 24 h)
+    for sign in ["", "-", "+"] {
+        for h in [0u32, 1, 2, 9, 12, 25] {
+            for ms in [None, Some((0u32, None)), Some((30, None)), Some((45, Some(0u32))), Some((30, Some(28)))] {
+                let mut t = format!("{}{}", sign, h);
+                if let Some((m, sec)) = ms {
+                    t.push_str(&format!(":{:02}", m));
+                    if let Some(sec) = sec {
+                        t.push_str(&format!(":{:02}", sec));
+                    }
+                }
+                spelled.push((t, sign == "-", h > 24));
+            }
+        }
+    }
+    for (t, _, big) in &spelled {
+        if !*big {
+            v.push((format!("ABC{}", t), false));
+            v.push((format!("<+AB1>{}", t), false));
+            // both offsets spelled; the dst offset one hour east of the std offset is the default, here explicit
+            v.push((format!("ABC{}DEF,M3.5.0,M10.5.0", t), false));
+            v.push((format!("ABC5DEF{},M3.2.0,M11.1.0", t), false));
+        }
+    }
+    for (t, neg, big) in &spelled {
+        v.push((format!("CET-1CEST,M3.5.0/{},M10.5.0", t), *neg || *big));
+        v.push((format!("CET-1CEST,M3.5.0,M10.5.0/{}", t), *neg || *big));
+        v.push((format!("AEST-10AEDT,M10.1.0/{},M4.1.0/{}", t, t), *neg || *big));
+    }
     let times: Vec<(&str, bool)> = vec![("", false), ("/0", false), ("/1:30", false), ("/3", false), ("/24", false), ("/-1", true), ("/26", true)];
     let zones = [("CET-1CEST", ""), ("EST5EDT", ""), ("AEST-10AEDT", ""), ("<+0330>-3:30<+0430>", ""), ("IST-1GMT0", ""), ("NZST-12NZDT", "")];
     for (zi, (zn, _)) in zones.iter().enumerate() {
@@ -245,6 +275,10 @@ pub fn footers(thorough: bool) -> Vec<(String, bool)> {
 }
 
 /// RFC-consistent zones for one footer: versions x table shapes
+pub fn synth_zones(text: &str, v3: bool) -> Vec<Zone> {
+    synth(text, v3)
+}
+
 fn synth(text: &str, v3: bool) -> Vec<Zone> {
     let rule = match rz::parse_posix_tz(text, true) {
         Some(r) => r,
@@ -375,7 +409,12 @@ pub fn run(ctx: &Ctx) -> i32 {
         let (text, v3) = &foot[i as usize];
         let zs = synth(text, *v3);
         if zs.is_empty() {
-            acc.branch("footer-not-iana-shaped-skipped");
+            if rz::parse_posix_tz(text, true).is_none() {
+                acc.branch("footer-not-accepted-by-the-reference-skipped");
+                acc.sample(json!({"footer_not_accepted_by_reference": text}));
+            } else {
+                acc.branch("footer-not-iana-shaped-skipped");
+            }
         }
         // every shape once more with leap-second records and standard/wall + UT/local indicators present
         let mut with_extras = vec![];
